@@ -343,7 +343,7 @@ def run_unit(u):
             top_sn, idmap = trees.snapshot(top)
             ref = refsel.Ref(top_sn, idmap[id(target)], False)
             for _ in range(6):
-                mag = rng.choice([10, 100, 10000])
+                mag = rng.choice([10, 100, 10000, 10 ** 7, 10 ** 12, 10 ** 30])
                 a = rng.choice([0, 1, -1, 2, -2, rng.randint(-mag, mag)])
                 b = rng.randint(-mag, mag) if rng.random() < .7 else rng.randint(-9, 9)
                 kind = rng.choice(KINDS)
